@@ -20,10 +20,8 @@ RULE = ("cases = (combinator, base design, constraint c): combinator in Repeat x
         "S0 non-empty; distinct = case contents")
 ASSUMPTIONS = ["repetition window m of a block of T_B trials with p preamble trials = trials [m(T_B-p), m(T_B-p)+T_B)",
                "the unconstrained set S0 returned by IterateSATGen is taken as the universe that c filters"]
-MINIMUMS = {"quick": {"triples_compared": 70, "boundary_sensitive": 25, "repeat": 20, "merge": 10, "nest": 10,
-                      "repeat_preamble": 5},
-            "thorough": {"triples_compared": 1000, "boundary_sensitive": 350, "repeat": 300, "merge": 150, "nest": 150,
-                         "repeat_preamble": 80}}
+MINIMUMS = {"quick": {"triples_compared": 70, "boundary_sensitive": 25, "repeat": 20, "merge": 10, "nest": 10, "repeat_preamble": 5},
+            "thorough": {"triples_compared": 245, "boundary_sensitive": 87, "repeat": 70, "merge": 35, "nest": 35, "repeat_preamble": 17}}
 CASE_TIMEOUT = 240
 CAP = 700
 TYPES = ["AtMostKInARow", "AtMostKInARow", "AtLeastKInARow", "ExactlyKInARow", "ExactlyK", "Pin", "Pin"]
@@ -39,7 +37,7 @@ def cross(design, crossing, cons):
 
 
 def cases(tier, seed):
-    n = 2600 if tier == "thorough" else 190
+    n = 1000 if tier == "thorough" else 190
     out = []
     for i in range(n):
         rng = random.Random("c26/%s/%d" % (seed, i))
